@@ -714,3 +714,16 @@ fire("c08-occurrence-count-over-dict-of-terms", "C08", CNF,
 silent("c08-s-occurrence-count-over-list", "C08", CNF,
        "    for term in terms:\n        counts.update(reduced_vars & term.input_vars)\n",
        "    per_term = [reduced_vars & term.input_vars for term in terms]\n    for term_reduced_vars in per_term:\n        counts.update(term_reduced_vars)\n")
+
+fire("c05-integrate-renaming-map-filtered", "C05", "funsor/integrate.py",
+     "            k: to_funsor(\n                v, self.integrand.inputs.get(k, self.log_measure.inputs.get(k))\n            )\n            for k, v in alpha_subs.items()\n",
+     "            k: to_funsor(v, self.integrand.inputs[k])\n            for k, v in alpha_subs.items()\n            if k in self.integrand.inputs\n", "R05.1", "Integrate._alpha_convert")
+fire("c05-step-names-sorted-independently", "C05", "funsor/sum_product.py",
+     "    step = OrderedDict(sorted(step.items()))\n    prev_to_drop = dict(zip(step.keys(), drop))\n    curr_to_drop = dict(zip(step.values(), drop))\n",
+     "    prev_to_drop = dict(zip(sorted(step.keys()), drop))\n    curr_to_drop = dict(zip(sorted(step.values()), drop))\n", "R05.1", "sequential_sum_product")
+fire("c16-add-refills-dispatch-cache", "C16", REGISTRY,
+     "        signature = tuple(map(typing_wrap, signature))\n        super().add(signature, func)\n",
+     "        signature = tuple(map(typing_wrap, signature))\n        old = dict(self._cache)\n        super().add(signature, func)\n        self._cache.update(old)\n", "R16.6", "PartialDispatcher")
+rename("C05", "funsor/integrate.py", "Integrate._alpha_convert")
+rename("C05", "funsor/sum_product.py", "MarkovProduct._alpha_convert")
+rename("C05", "funsor/sum_product.py", "sequential_sum_product")
